@@ -35,6 +35,7 @@ ASSUMPTIONS = {
     "np.sqrt": "numpy.sqrt returns the non-negative real root as float64, NaN for negative input (errors ignored); TypeError for a Python int outside [-2^63, 2^64)",
     "np.absolute": "numpy.absolute is |x| and returns a numpy scalar",
     "math.isnan": "math.isnan is true exactly for NaN",
+    "math.copysign": "math.copysign converts to double (OverflowError for a Python int beyond 2^1024) and returns |x| with the sign of y",
     "math.factorial": "math.factorial(n) = n! for integer n >= 0, ValueError for negative n",
     "py.pow": "int ** non-negative int is the exact integer power",
     "random": "random.* return arbitrary values in their documented ranges (havoc)",
@@ -227,6 +228,26 @@ def install(I):
         I.raise_("TypeError", "must be real number", implicit=True)
 
     E["math.isinf"] = isinf
+
+    def copysign(I, args, kw):
+        """math.copysign(x, y): both arguments are converted to C doubles first - a Python int beyond the double
+        range (|v| >= 2^1024) raises OverflowError; the result is the float |x| with the sign of y (y = 0: +)."""
+        a, b = args
+        for v in (a, b):
+            if isinstance(v, Num):
+                t = tag_of(v)
+                pyint = b_and(b_not(t[0]), b_not(t[1]))
+                if not (pyint is False) and I.truth(z3.And(zbool(pyint), z3.Or(zreal(v) >= 2**1024, zreal(v) <= -(2**1024))), "copysign:int-beyond-double"):
+                    I.raise_("OverflowError", "int too large to convert to float", implicit=True, site="math.copysign")
+            elif isinstance(v, int) and not isinstance(v, bool) and abs(v) >= 2**1024:
+                I.raise_("OverflowError", "int too large to convert to float", implicit=True, site="math.copysign")
+        if a is NAN or b is NAN or a is INF or b is INF:
+            raise OutOfSubset("copysign of a non-finite value")
+        av, bv = zreal(a), zreal(b)
+        mag = z3.If(av >= 0, av, -av)
+        return Num(z3.If(bv >= 0, mag, -mag), TAG_PYFLOAT)
+
+    E["math.copysign"] = copysign
 
     def factorial(I, args, kw):
         (v,) = args
